@@ -2,8 +2,11 @@
 PROPS = {}
 
 PROPS['C05'] = dict(
+    requires=['ConInd', 'RTFacts'],
     title='C05 - sizeof is exact when it answers and fails only with SizeofError',
     theorems=[
+        ('SizeExact', 'build_size_exact', 'For EVERY construct of the closed sequential fragment (frag: FormatField, BytesInteger, Bytes, Pass, Const, Renamed, Struct, Sequence, Array, Prefixed, Padded, Aligned, FixedSized; any depth): when sizeof answers n - under any context - every successful build advances the output stream by exactly n.'),
+        ('SizeExact', 'C05_exact_closed', 'On the public entry points: sizeof = number of bytes built = number of bytes consumed when those bytes are parsed back followed by arbitrary trailing data.'),
         ('SizeofFacts', 'sizeof_nokey', 'For EVERY construct of the model, every context and path: sizeof never reports a missing key as KeyError / AttributeError.'),
     ],
     examples='''
@@ -365,8 +368,11 @@ Proof. split; vm_compute; reflexivity. Qed.
 ''')
 
 PROPS['C06'] = dict(
+    requires=['ConInd', 'RTFacts'],
     title='C06 - malformed, truncated or failing input is always reported as ConstructError',
     theorems=[
+        ('ErrFacts', 'parse_only_construct_errors', 'For EVERY construct of the closed sequential fragment (any depth) and EVERY input - any bytes, any position, truncated or not - parse returns a value or fails with a ConstructError subclass; no foreign exception comes out (the model\'s own meta outcomes apart).'),
+        ('ErrFacts', 'C06_only_construct_errors', 'The same on the public entry point parse(data, **kw).'),
         ('StreamFacts', 'iread_discipline', 'A read either succeeds or is StreamError.'),
         ('StreamFacts', 'iread_exact', 'No value is produced from fewer bytes than requested: a successful read returns exactly the requested number of bytes.'),
         ('StreamFacts', 'iread_short', 'A read past the end of the data is StreamError (at any position).'),
